@@ -470,6 +470,21 @@ fn rdata_family(c: &mut Ctx) {
                     let rp = c.replay_of(fam, idx, json!({"rtype": t, "rdata": hex(&vals[i].buf[12..])}));
                     c.violation(&sig, &format!("value of type {} is not equal / Equal / same-hash to itself or its flattened copy", tn), rp);
                 }
+                // the order is *defined* as the octet order of the canonical wire forms: what the library itself composes as
+                // the canonical form (of the value as parsed and as flattened) is the reference's canonical form
+                {
+                    use domain::base::rdata::ComposeRecordData;
+                    let mut a = Vec::new();
+                    let mut b = Vec::new();
+                    if x.compose_canonical_rdata(&mut a).is_ok() && xf.compose_canonical_rdata(&mut b).is_ok() {
+                        c.count("canonical_forms_composed", 1);
+                        if a != vals[i].canon || b != vals[i].canon {
+                            let sig = format!("law:canonical-form:{}", tn);
+                            let rp = c.replay_of(fam, idx, json!({"rtype": t, "rdata": hex(&vals[i].buf[12..])}));
+                            c.violation(&sig, &format!("compose_canonical_rdata of a {} gives {} (parsed) / {} (flattened), the canonical form by RFC 4034 6.2 is {}", tn, hex(&a[..a.len().min(48)]), hex(&b[..b.len().min(48)]), hex(&vals[i].canon[..vals[i].canon.len().min(48)])), rp);
+                        }
+                    }
+                }
                 for &j in &idxs {
                     let y = parsed[j].as_ref().unwrap();
                     let yf = flat[j].as_ref().unwrap();
